@@ -575,12 +575,27 @@ def gen_cases(target):
 def prepare_case(case):
     """returns (g, syms, violations|None)"""
     spec = case["spec"]
+    import signal
+
+    class _Expired(Exception):
+        pass
+
+    def _on_alarm(signum, frame):
+        raise _Expired()
+
+    old_handler = signal.signal(signal.SIGALRM, _on_alarm)
+    signal.alarm(60)  # safety net only: a non-terminating expansion/rewrite is C04's subject; here the case is skipped
     try:
         ctx, g = make_graph(spec, case["target"], refs=case["refs"], rewrite=case["rewrite"], call_from=case.get("call_from"))
+    except _Expired:
+        return None, None, None
     except NotImplementedError:
         return None, None, None
     except Exception as e:
         return None, None, [("prepare-raises/%s" % type(e).__name__, "expansion/rewrite for %s raised %r" % (case["target"], e))]
+    finally:
+        signal.alarm(0)
+        signal.signal(signal.SIGALRM, old_handler)
     syms = [(n, t) for n, t in spec["syms"]]
     # keep the symbols the function actually takes (all of them: make_apply uses every symbol)
     return g, syms, []
